@@ -21,8 +21,8 @@ try:
     ref = canon.load_reference()
     csigs, rsigs = canon.signatures_of(trees), canon.signatures_of(ref)
     for m, q, container, idx, n, r, hc, hr in canon.changed_functions(trees, ref):
-        dc, fc = canon.canonical(n, hc, csigs)
-        dr, fr = canon.canonical(r, hr, rsigs)
+        dc, fc = canon.canonical(n, hc, csigs, canon._cls_of(canon._classes(trees), m, q))
+        dr, fr = canon.canonical(r, hr, rsigs, canon._cls_of(canon._classes(ref), m, q))
         print("==", m, q, "EQUIVALENT" if dc == dr else "DIFFERENT", "helpers:", list(hc), list(hr))
         if dc != dr:
             from sa import alpha as A
